@@ -66,6 +66,7 @@ def run_one(mod, pid, case):
     H.POLL_DEFAULT = h % 3 == 1
     H.EAGER_DEFAULT = h % 13 == 5 and getattr(mod, "EAGER_OK", True)
     H.WARN_ERROR_DEFAULT = h % 7 == 2
+    H.QUIET_DEFAULT = h % 9 == 4 and not H.DEBUG_DEFAULT
     try:
         if isinstance(case, dict) and case.get("k") == "soak":
             from . import soak
@@ -75,6 +76,9 @@ def run_one(mod, pid, case):
         if H.DEBUG_DEFAULT and isinstance(r, dict):
             r.setdefault("obs", {})
             r["obs"]["cases_with_debug_logging_on"] = 1
+        if H.QUIET_DEFAULT and isinstance(r, dict):
+            r.setdefault("obs", {})
+            r["obs"]["cases_with_warnings_silenced"] = 1
         if H.WARN_ERROR_DEFAULT and isinstance(r, dict):
             r.setdefault("obs", {})
             r["obs"]["cases_with_warnings_as_errors"] = 1
@@ -91,6 +95,7 @@ def run_one(mod, pid, case):
         H.POLL_DEFAULT = False
         H.EAGER_DEFAULT = False
         H.WARN_ERROR_DEFAULT = False
+        H.QUIET_DEFAULT = False
 
 
 def worker(pid, tier, seed, shard, nshards, out_path, budget_s):
